@@ -2,7 +2,7 @@
 (* C14 monitor on real executions of transport/ardop against the simulated     *)
 (* ARDOP TNC (CRC-protected serial host interface, and TCP): byte streams per   *)
 (* connection, lexed host frames, required exchanges, API call/return records.  *)
-EXTENDS Naturals, TraceLib
+EXTENDS Naturals, FiniteSets, TraceLib
 VARIABLE dummy
 TraceInit == TraceInitTL /\ dummy = 0
 
@@ -19,7 +19,17 @@ TPtt == IsEvent("Ptt") /\ Ev.inOrder /\ UNCHANGED dummy /\ Consume
 TExchange == IsEvent("Exchange") /\ Ev.seen /\ UNCHANGED dummy /\ Consume
 TMalformed == IsEvent("Malformed") /\ ~Ev.crashed /\ ~Ev.hung /\ UNCHANGED dummy /\ Consume
 TCrash == IsEvent("Crash") /\ FALSE
+(* FlushAfterBufferZero on the TNC side event log (one clock): whenever Flush has returned, the TNC had sent a BUFFER 0   *)
+(* report after the last data frame it accepted before that return (a BUFFER 0 that crossed a data frame on the line is   *)
+(* not a report about that frame); and every CRCFAULT is followed by another arrival of a data frame.                    *)
+FlushSound(log) == \A i \in 1..Len(log) : log[i].k = "flushRet" =>
+                      \E j \in 1..(i - 1) : /\ log[j].k = "buf" /\ log[j].v = 0
+                                            /\ \A d \in 1..(i - 1) : log[d].k = "data" => d < j
+FaultsRetried(log) == \A i \in 1..Len(log) : log[i].k = "fault" =>
+                      (\E j \in (i + 1)..Len(log) : log[j].k \in {"data", "fault"}) \/ Cardinality({f \in 1..i : log[f].k = "fault"}) >= 3
+TTncLog == IsEvent("TncLog") /\ FlushSound(Ev.log) /\ UNCHANGED dummy /\ Consume
+TTncFaults == IsEvent("TncFaults") /\ FaultsRetried(Ev.log) /\ UNCHANGED dummy /\ Consume
 
-TraceNext == TApi \/ TReads \/ TTncData \/ TRetransmit \/ TPtt \/ TExchange \/ TMalformed \/ TCrash
+TraceNext == TApi \/ TReads \/ TTncData \/ TRetransmit \/ TPtt \/ TExchange \/ TMalformed \/ TCrash \/ TTncLog \/ TTncFaults
 TraceSpec == TraceInit /\ [][TraceNext]_<<dummy, tvars>>
 =============================================================================
